@@ -19,8 +19,9 @@ class History:
 
     def __init__(self, binary, names, tree, lock=None, structured=False, use_cache=None, base=0, maxid=None,
                  pad=0, crlf=False, unicode_prelude=False, bad=(), extra_files=None, tmp_on_other_fs=False,
-                 label=None, config_class="ok", structured_key="explicit", extensions=None, opaque=False, tmp_leftovers=False, pad_mode="spread", tmp_missing=False, env=None):
+                 label=None, config_class="ok", structured_key="explicit", extensions=None, opaque=False, tmp_leftovers=False, pad_mode="spread", tmp_missing=False, env=None, head_style="plain"):
         self.binary = binary
+        self.head_style = head_style
         # the environment of the invocation (spec/Env.tla): where TMPDIR is, how the configuration file and the source
         # directory are spelled, which directory the command is started in
         self.env = dict(env or {})
@@ -208,7 +209,7 @@ class History:
     def _text(self, n):
         slots = [dict(s, ref=s["ref"]) for s in self.tree[n]]
         return bl.render_file(n, slots, self.structured, pad=self.pad, crlf=self.crlf,
-                              prelude_unicode=self.unicode_prelude, pad_mode=self.pad_mode)
+                              prelude_unicode=self.unicode_prelude, pad_mode=self.pad_mode, head_style=self.head_style)
 
     def _materialise(self, n):
         p = os.path.join(self.proj.src, n)
@@ -347,6 +348,10 @@ class History:
         def others(s):
             return {k: (v[:3] + v[4:] if v[0] == "dir" else v) for k, v in s.items()
                     if k not in ignore and not k.startswith(P.tmp) and not k.startswith(P.lock_path)}
+        # scratch files do not only live in TMPDIR: anything new in the project directory other than the lock file and the
+        # sources is a temporary file that was left behind
+        stray = [k for k in snap1 if k not in snap0 and (k == P.proj or k.startswith(P.proj + "/"))
+                 and k != P.lock_path and k not in src_paths]
         o0, o1 = others(snap0), others(snap1)
         # directory mtimes change when entries are renamed into them; compare without dir mtimes
         others_same = (o0 == o1)
@@ -396,7 +401,7 @@ class History:
         cnt = r.inserted_count() if mode == "edit" else None
         exitc = {0: 0, "nonzero": 2, "signal": 130, "killed": 137, "panic": 101, "timeout": 124}[r.exit_class]
         self.events.append({"ev": "end", "exit": exitc, "files": self._abs_tree(self.tree), "lock": self.abs_lock,
-                            "cls": cls, "pure": pure, "tmpleft": max(0, len(P.tmp_entries()) - self.tmp_baseline), "snapeq": snapeq,
+                            "cls": cls, "pure": pure, "tmpleft": max(0, len(P.tmp_entries()) - self.tmp_baseline) + len(stray), "snapeq": snapeq,
                             "others_same": others_same, "reported": sorted(reported), "total": total,
                             "count": cnt if cnt is not None else -1, "rc": r.rc if r.rc is not None else -1,
                             "pos_match": pos_match, "present": self._present_list(), "bad": self._bad_list(),
